@@ -29,9 +29,12 @@ impl<'a, T: Read + Seek> QueueReader<'a, T> {
             .seek_physical(pc.file_offset)
             .read_err("Cannot seek to compressed vector header")?;
         let section_header = CompressedVectorSectionHeader::read(reader)?;
-        reader
-            .seek_physical(section_header.data_offset)
-            .read_err("Cannot seek to packet header")?;
+        if pc.records > 0 {
+            // An empty compressed vector has no packets, its data offset can be the end of the file
+            reader
+                .seek_physical(section_header.data_offset)
+                .read_err("Cannot seek to packet header")?;
+        }
 
         Ok(Self {
             pc: pc.clone(),
